@@ -100,7 +100,7 @@ def gen(pid, tier, rng, n=None):
     for i in range(n):
         b = shapes.B(f"{pid.lower()}_{i}")
         u = histgen.Universe(rng, b, nleaves=(2, 5), ncolls=(1, 4), poison=0.9 if pid == "C10" else (0.5 if pid == "C02" else 0.25),
-                             depth=rng.choice([0, 1, 1, 2]))
+                             depth=rng.choice([0, 1, 1, 2]), big=rng.random() < 0.25)
         if pid == "C10":
             # contended wrappers: a few acquirable roots only, most of them poisonable or containing one
             pr = [c for c in u.roots if "P(" in b.desc[c]]
